@@ -8,6 +8,7 @@ import (
 	"errors"
 	"fmt"
 	"io"
+	"regexp"
 	"strings"
 	"sync"
 	"testing"
@@ -427,6 +428,8 @@ func TestC12HeaderAcceptance(t *testing.T) {
 // case by TestC12Restart).
 var decoysInHeaders bool
 
+var langAttr = regexp.MustCompile(`xml:lang=['"]([^'"]*)['"]`)
+
 func tcpHeader(ns, from, to, id string) string {
 	return tcpHeaderV(ns, from, to, id, "1.0")
 }
@@ -553,7 +556,7 @@ func TestC12Restart(t *testing.T) {
 		}
 		// second header: what it fails to declare although the first one did (what
 		// an earlier header of the same connection said does not count for a later one)
-		defects := []string{"none", "none", "none", "none", "noversion", "badversion", "nons", "otherns"}
+		defects := []string{"none", "none", "none", "none", "noversion", "badversion", "nons", "otherns", "nostreamprefix", "otherstreamns"}
 		if !recv {
 			defects = append(defects, "noid")
 		}
@@ -652,6 +655,21 @@ func TestC12Restart(t *testing.T) {
 				to2 = alt.String()
 			}
 		}
+		// the language of the session's streams is chosen per session by the
+		// configuration function (the initial configuration names another one)
+		lang := rapid.SampledFrom([]string{"", "", "en", "de-CH", "x-klingon"}).Draw(rt, "lang")
+		header2 := func() string {
+			h := tcpHeaderV(ns2, from2, to2, id2, version2)
+			switch defect {
+			case "nostreamprefix":
+				// the prefix of the open tag is not declared by this header (what an
+				// earlier header of the connection declared does not count)
+				h = strings.Replace(h, ` xmlns:stream="`+wire.StreamNS+`"`, ``, 1)
+			case "otherstreamns":
+				h = strings.Replace(h, ` xmlns:stream="`+wire.StreamNS+`"`, ` xmlns:stream="urn:verif:notstreams"`, 1)
+			}
+			return h
+		}
 		peer := wire.NewReactive(func(r *wire.Reactive, fresh []byte) []byte {
 			if !recv {
 				// we are the receiving entity of the library's stream
@@ -661,7 +679,10 @@ func TestC12Restart(t *testing.T) {
 					if headers == 1 {
 						return []byte(tcpHeader(ns, them.String(), us.String(), "s1") + `<stream:features><restart xmlns="urn:verif:restart"/></stream:features>`)
 					}
-					return []byte(tcpHeaderV(ns2, from2, to2, id2, version2) + `<stream:features/>`)
+					if defect == "nostreamprefix" || defect == "otherstreamns" {
+						return []byte(header2())
+					}
+					return []byte(header2() + `<stream:features/>`)
 				case bytes.Contains(fresh, []byte("<restart")):
 					return []byte(`<ok xmlns="urn:verif:restart"/>`)
 				}
@@ -674,13 +695,45 @@ func TestC12Restart(t *testing.T) {
 			case 1:
 				return []byte(`<restart xmlns="urn:verif:restart"/>`)
 			case 2:
-				return []byte(tcpHeaderV(ns2, from2, to2, id2, version2))
+				return []byte(header2())
 			}
 			return nil
 		})
-		neg := xmpp.NewNegotiator(func(*xmpp.Session, *xmpp.StreamConfig) xmpp.StreamConfig {
-			return xmpp.StreamConfig{Features: []xmpp.StreamFeature{feat}}
+		neg := xmpp.NewNegotiator(func(sess *xmpp.Session, _ *xmpp.StreamConfig) xmpp.StreamConfig {
+			cfg := xmpp.StreamConfig{Features: []xmpp.StreamFeature{feat}}
+			if lang != "" {
+				cfg.Lang = "zz"
+				if sess != nil {
+					cfg.Lang = lang
+				}
+			}
+			return cfg
 		})
+		defer func() {
+			// every header the library sent after the first carries the language
+			// the configuration function chose for this session
+			if wrapper || lang == "" {
+				return
+			}
+			for i, part := range bytes.Split(peer.Conn.Output(), []byte("<?xml"))[1:] {
+				end := bytes.Index(part, []byte("<stream:stream"))
+				if end < 0 {
+					continue
+				}
+				tag := part[end:]
+				if k := bytes.IndexByte(tag, '>'); k >= 0 {
+					tag = tag[:k]
+				}
+				m := langAttr.FindSubmatch(tag)
+				got := ""
+				if m != nil {
+					got = string(m[1])
+				}
+				if i >= 1 && got != lang {
+					fail("header %d the library sent declares the language %q; the configuration function chose %q for this session\noutput: %q", i, got, lang, peer.Conn.Output())
+				}
+			}
+		}()
 		var s *xmpp.Session
 		var err error
 		if p := ev.Guard(func() {
@@ -721,7 +774,8 @@ func TestC12Restart(t *testing.T) {
 		}
 		if defect != "none" {
 			why := map[string]string{"noversion": "declares no version", "badversion": "declares version " + version2, "nons": "declares no content namespace",
-				"otherns": "declares the content namespace urn:verif:other", "noid": "carries no stream id"}[defect]
+				"otherns": "declares the content namespace urn:verif:other", "noid": "carries no stream id",
+				"nostreamprefix": "does not declare the prefix of its open tag", "otherstreamns": "binds the prefix of its open tag to another namespace"}[defect]
 			if err == nil {
 				fail("the header after the restart %s but was accepted; state %v\noutput: %q", why, s.State(), peer.Conn.Output())
 			}
